@@ -619,7 +619,7 @@ def delitem(P, c, k):
                 return
             raise _pyexc(P, "KeyError", k)
         for kk in list(c):
-            if P.branch(P.eq(kk, k)):
+            if P.branch(P.eq(kk.v if isinstance(kk, _SymKey) else kk, k)):
                 del c[kk]
                 return
         raise _pyexc(P, "KeyError", k)
